@@ -180,8 +180,10 @@ func (u *Universe) verifyFunc(fi *FuncInfo) (obls []*Obl, rep FuncReport) {
 		o.Decls = decls
 		o.Lits = e.litList
 		o.Spec = e.specFiles
-		if con.Skip["safety"] && strings.HasPrefix(o.Kind, "safety") {
-			o.Kind = "skipped"
+		for k := range con.Skip {
+			if strings.HasPrefix(o.Kind, k) {
+				o.Kind = "skipped"
+			}
 		}
 	}
 	var kept []*Obl
